@@ -15,12 +15,39 @@ def words(L):
     return WORDS[key]
 
 
-def check(acc, spec, L, share=False):
+_LIVE = {}
+
+
+def morph(spec):
+    """One live node object per node class whose fields are rewritten in place for every instance."""
+    op = spec[0]
+    if op in ('0', '1'):
+        return rx.to_lib(spec)
+    node = _LIVE.get(op)
+    if node is None:
+        node = _LIVE[op] = rx.to_lib(spec)
+        return node
+    if op == 's':
+        node.symbol = spec[1]
+    elif op == '*':
+        node.operand = rx.to_lib(spec[1])
+    else:
+        node.left = rx.to_lib(spec[1])
+        node.right = rx.to_lib(spec[2])
+    return node
+
+
+def check(acc, spec, L, share=False, live=None):
     from gambatools.regexp_algorithms import regexp_accepts_word, regexp_simplify, regexp_size
     rp = {'fn': 'mc.props.c05:one', 'mode': 'plain', 'params': {'spec': spec, 'L': L, 'sigma': list(SIGMA)}}
     inst = {'regexp': rx.show(spec), 'shared_subterms': share}
-    r = rx.to_lib(spec, {} if share else None)
-    rp['params']['share'] = share
+    if live is not None:
+        rp = dict(live, params=dict(live['params'], upto=spec))
+        inst['presented_as'] = live['params'].get('how', 'one live node per class rewritten in place')
+        r = morph(spec)
+    else:
+        r = rx.to_lib(spec, {} if share else None)
+        rp['params']['share'] = share
     acc.states += 1
     nacc = 0
     for w in words(L):
@@ -77,9 +104,61 @@ def t_space(acc, m, L, shard, nshard, lo=0, digits=False, share=False, multi=Fal
     SIGMA[:] = ['a', 'b']
 
 
+def bait(x, y):
+    """Rewrite-rule bait: shapes on which a simplifier is tempted to factor / absorb, with two independently chosen
+    subterms x, y where a sound rule needs x == y."""
+    a, b, one = ('s', 'a'), ('s', 'b'), ('1',)
+    return [('+', ('.', x, a), ('.', y, b)), ('+', ('.', a, x), ('.', b, y)), ('+', ('.', x, ('*', y)), one), ('+', one, ('.', x, ('*', y))),
+            ('+', ('.', ('*', y), x), one), ('.', ('*', x), ('*', y)), ('+', x, ('.', y, ('*', y))), ('.', ('+', x, a), ('+', y, b)),
+            ('+', ('*', x), y), ('*', ('+', ('*', x), y)), ('+', ('.', x, a), ('.', y, a)), ('.', ('.', x, ('*', y)), y)]
+
+
+def t_bait(acc, m, L, shard, nshard):
+    big = [r for _, r in rx.trees_up_to(m)]
+    k = 0
+    for x in big:
+        for y in big:
+            k += 1
+            if k % nshard == shard:
+                for spec in bait(x, y):
+                    check(acc, spec, L)
+
+
+def t_after_failure(acc, m, L, n_long, live, upto=None, how=None):
+    """History: a legal call that exhausts the interpreter's recursion limit (a* on a^n_long; tolerated, the resource
+    limit is the environment's), then every expression with <= m nodes - as fresh objects or through live node objects
+    rewritten in place.  Whatever the failed call left behind must not change later answers."""
+    from gambatools.regexp_algorithms import regexp_accepts_word, regexp_simplify
+    def tup(x):
+        return tuple(tup(y) for y in x) if isinstance(x, list) else x
+    upto = tup(upto) if upto is not None else None
+    _LIVE.clear()
+    for spec, w in ((('*', ('s', 'a')), 'a' * n_long), (('*', ('+', ('s', 'a'), ('*', ('s', 'b')))), 'ab' * (n_long // 2))):
+        try:
+            got = regexp_accepts_word(rx.to_lib(spec), w)
+            acc.c['long_word_calls_that_answered'] += 1
+            if got is not True:
+                acc.viol('regexp_accepts_word', 'verdict differs from membership in the denoted language', {'regexp': rx.show(spec), 'word': 'length %d' % len(w)}, observed=got, expected=True)
+        except RecursionError:
+            acc.c['long_word_calls_stopped_by_the_recursion_limit'] += 1
+        except MemoryError:
+            acc.c['long_word_calls_stopped_by_memory'] += 1
+    me = {'fn': 'mc.props.c05:t_after_failure', 'mode': 'plain', 'params': {'m': m, 'L': L, 'n_long': n_long, 'live': live, 'how': 'after a call stopped by the recursion limit' + (', live node objects rewritten in place' if live else '')}}
+    for idx, spec in rx.trees_up_to(m):
+        check(acc, spec, L, live=me if live else None)
+        if not live:
+            pass
+        if upto is not None and spec == upto:
+            break
+    _LIVE.clear()
+
+
 def plan(tier, seed):
     tasks = []
     T = 'mc.props.c05:t_space'
+    tasks.append(('plain', 'mc.props.c05:t_after_failure', {'m': 4, 'L': 3, 'n_long': 3000, 'live': True}))
+    tasks.append(('plain', 'mc.props.c05:t_after_failure', {'m': 4, 'L': 3, 'n_long': 3000, 'live': False}))
+    tasks.extend(('plain', 'mc.props.c05:t_bait', {'m': 3, 'L': 3, 'shard': s_, 'nshard': 8}) for s_ in range(8))
 
     def add(m, L, ns, **kw):
         tasks.extend(('plain', T, dict({'m': m, 'L': L, 'shard': s, 'nshard': ns}, **kw)) for s in range(ns))
@@ -102,4 +181,4 @@ def plan(tier, seed):
         bounds += '; thorough adds RE(6) x words <= 6, RE(7) x words <= 5, RE(9) (665 252 trees) x words <= 3, DAG RE(7), two-character symbols and digit symbols on RE(6)'
     return {'tasks': tasks, 'bounds': {'spaces': bounds}, 'exhaustive': True,
             'rule': 'every expression tree with <= m nodes over leaves 0,1,a,b and operators *,+,. x every word over {a,b} up to L (matcher vs Brzozowski derivatives); simplifier vs exact Glushkov equivalence; non-trivial = accepts some but not all tested words',
-            'assumptions': ['symbols are single characters or identifiers (ab, ba); a word is a string']}
+            'assumptions': ['symbols are single characters or identifiers (ab, ba); a word is a string', 'wave 5: rewrite-rule bait family (12 shapes x all pairs of subterms with <= 3 nodes, 11-13 nodes each); RE(4) again after calls stopped by the recursion limit (a* on a^3000), as fresh objects and through live node objects rewritten in place; a RecursionError on a very long word is the environment resource limit and is not judged']}
